@@ -107,6 +107,14 @@ def trailing_tags(data, w, own_ape, own_v1):
     if end >= 128 and data[end - 128:end - 125] == b"TAG" and not ape_footer_at(end):
         pieces.append(("id3v1", end - 128, end))
         end -= 128
+    elif not ape_footer_at(end):
+        # legacy: old mutagen versions wrote the year field with fewer than four bytes (tags of 124-127 bytes);
+        # mutagen still owns them (mutagen issue #69)
+        for k in (127, 126, 125, 124):
+            if end >= k and data[end - k:end - k + 3] == b"TAG":
+                pieces.append(("id3v1", end - k, end))
+                end -= k
+                break
     # Lyrics3v2: "LYRICSBEGIN" ... size(6) "LYRICS200"
     if end >= 15 and data[end - 9:end] == b"LYRICS200":
         try:
@@ -182,6 +190,7 @@ def walk_id3_framed(data):
     for name, a, b in reversed(pieces):
         if name == "id3v1":
             w.book["id3v1"] = True
+            w.book["id3v1_len"] = b - a
             w.tag_bytes += data[a:b]
             w.tagged = True
         else:
@@ -235,11 +244,14 @@ def walk_flac(data):
             padding += size
             if payload.strip(b"\x00"):
                 w.err("flac: non-zero padding")
-        elif code == 4 and not seen_vc:
+        elif code == 4:
+            # every VORBIS_COMMENT block is tag data (files with more than one exist: mutagen issue #377)
+            if not seen_vc:
+                w.book["vc_size"] = size
             seen_vc = True
             w.tagged = True
             w.tag_bytes += payload
-            w.book["vc_size"] = size
+            w.book["vc_blocks"] = w.book.get("vc_blocks", 0) + 1
         else:
             w.foreign.append(("block%d" % code, payload))
         pos += 4 + size
